@@ -270,13 +270,31 @@ fn do_call(st: &mut TaskState, sh: &Shared, call: &Call) {
             let fname = "wirefilter_get_filter_hash";
             let Some(ast) = &st.ast else { return };
             let json = serde_json::to_string(&***ast).unwrap();
-            let want = fnv_bytes(FNV_OFFSET, json.as_bytes());
             let r = ffi::wirefilter_get_filter_hash(ast);
             kernel::count("c20.hash");
-            if r.status != Status::Success || r.hash != want {
-                mismatch(st, fname, "hash", format!("C API {:?}/{:#x}, FNV-1a of the Rust API JSON {want:#x}", r.status, r.hash));
+            // "equal hashes for equal JSON": which function of the JSON the hash is, the statement does not say (today
+            // FNV-1a of the text; counted, not demanded). Demanded: success, the same answer when asked again, and the
+            // same answer for another AST object with the same JSON (a copy living at another address).
+            if r.hash == fnv_bytes(FNV_OFFSET, json.as_bytes()) {
+                kernel::count("c20.hash_is_fnv1a_of_json");
             }
-            // equal JSON => equal hash: re-parse the same text into a second AST
+            let again = ffi::wirefilter_get_filter_hash(ast);
+            let copy: Box<ffi::FilterAst> = Box::new(ffi::FilterAst::from((***ast).clone()));
+            let copy_json = serde_json::to_string(&**copy).unwrap();
+            let of_copy = ffi::wirefilter_get_filter_hash(&copy);
+            if r.status != Status::Success || again.status != Status::Success || of_copy.status != Status::Success {
+                mismatch(st, fname, "hash", format!("C API status {:?} / {:?} / {:?} for an AST the Rust API serializes", r.status, again.status, of_copy.status));
+            } else if again.hash != r.hash {
+                mismatch(st, fname, "hash", format!("the same AST hashed twice: {:#x}, then {:#x}", r.hash, again.hash));
+            } else if copy_json == json && of_copy.hash != r.hash {
+                mismatch(st, fname, "hash", format!("two ASTs with the same JSON {json}: {:#x} and {:#x}", r.hash, of_copy.hash));
+            }
+            let known = seams::harness(|h| h.hashes.insert(json.clone(), r.hash));
+            if let Some(prev) = known {
+                if prev != r.hash {
+                    mismatch(st, fname, "hash", format!("JSON {json} hashed to {prev:#x} earlier in this run, now to {:#x}", r.hash));
+                }
+            }
             st.ok_calls += 1;
             verify_last_error(st, fname);
         }
